@@ -132,19 +132,19 @@ def _truthy_str(vc, v):
 # T2 (bounded): IANA special-purpose registries (snapshot below), boundary addresses of every block, in plain,
 # IPv4-mapped and zone-scoped notation x both options x every mode class; plus the real ConnectionHandler.handle_client.
 
-# (prefix, globally reachable)  — IANA IPv4 Special-Purpose Address Registry (snapshot 2024-06)
+# (prefix, globally reachable; None = "N/A" in the registry: not compared)  — IANA IPv4 Special-Purpose Address Registry (snapshot 2024-06)
 IANA_V4 = [
     ("0.0.0.0/8", False), ("0.0.0.0/32", False), ("10.0.0.0/8", False), ("100.64.0.0/10", False), ("127.0.0.0/8", False),
     ("169.254.0.0/16", False), ("172.16.0.0/12", False), ("192.0.0.0/24", False), ("192.0.0.0/29", False), ("192.0.0.8/32", False),
     ("192.0.0.9/32", True), ("192.0.0.10/32", True), ("192.0.0.170/32", False), ("192.0.0.171/32", False), ("192.0.2.0/24", False),
-    ("192.31.196.0/24", True), ("192.52.193.0/24", True), ("192.88.99.0/24", False), ("192.168.0.0/16", False), ("192.175.48.0/24", True),
+    ("192.31.196.0/24", True), ("192.52.193.0/24", True), ("192.88.99.0/24", None), ("192.168.0.0/16", False), ("192.175.48.0/24", True),
     ("198.18.0.0/15", False), ("198.51.100.0/24", False), ("203.0.113.0/24", False), ("240.0.0.0/4", False), ("255.255.255.255/32", False),
 ]
 # IANA IPv6 Special-Purpose Address Registry (snapshot 2024-06)
 IANA_V6 = [
     ("::1/128", False), ("::/128", False), ("::ffff:0:0/96", False), ("64:ff9b::/96", True), ("64:ff9b:1::/48", False), ("100::/64", False),
     ("2001::/23", False), ("2001::/32", False), ("2001:1::1/128", True), ("2001:1::2/128", True), ("2001:2::/48", False), ("2001:3::/32", True),
-    ("2001:4:112::/48", True), ("2001:10::/28", False), ("2001:20::/28", True), ("2001:30::/28", True), ("2001:db8::/32", False), ("2002::/16", False),
+    ("2001:4:112::/48", True), ("2001:10::/28", False), ("2001:20::/28", True), ("2001:30::/28", True), ("2001:db8::/32", False), ("2002::/16", None),
     ("2620:4f:8000::/48", True), ("fc00::/7", False), ("fe80::/10", False),
 ]
 
@@ -164,6 +164,19 @@ def iana_global(a):
     return True, False
 
 
+# Registry blocks that CPython's ipaddress tables did not know before 3.12.4 / 3.13 (cpython gh-113171): on older interpreters
+# is_private/is_global disagree with the registry there.  Failures inside these blocks are reported under a separate check name
+# (recorded finding KF-C22-1, an interpreter defect the addon inherits); anywhere else a disagreement is a fresh violation.
+CPYTHON_GH113171 = ["192.0.0.0/24", "64:ff9b:1::/48", "2001:1::1/128", "2001:1::2/128", "2001:3::/32", "2001:4:112::/48", "2001:20::/28", "2001:30::/28"]
+
+
+def _in_lagging_block(a):
+    import ipaddress
+    if a.version == 6 and (int(a) >> 32) == 0xFFFF:
+        a = ipaddress.IPv4Address(int(a) & 0xFFFFFFFF)
+    return any(a.version == ipaddress.ip_network(n).version and a in ipaddress.ip_network(n) for n in CPYTHON_GH113171)
+
+
 def _boundary_addresses():
     import ipaddress
     out = []
@@ -175,7 +188,7 @@ def _boundary_addresses():
             for v in (lo - 1, lo, lo + 1, hi - 1, hi, hi + 1):
                 if 0 <= v < 2 ** n.max_prefixlen:
                     out.append(cls(v))
-    extra = ["8.8.8.8", "1.1.1.1", "216.58.207.174", "2a00:1450:4001:81a::200e", "2606:4700:4700::1111", "224.0.0.1", "ff02::1", "::ffff:8.8.8.8", "::ffff:10.0.0.1", "::ffff:127.0.0.1"]
+    extra = ["8.8.8.8", "1.1.1.1", "216.58.207.174", "2a00:1450:4001:81a::200e", "2606:4700:4700::1111", "::ffff:8.8.8.8", "::ffff:10.0.0.1", "::ffff:127.0.0.1"]
     out += [ipaddress.ip_address(x) for x in extra]
     seen, res = set(), []
     for a in out:
@@ -196,8 +209,12 @@ def _spec_refused(a, mode, bp, bg, use_iana):
         return False
     if use_iana:
         g, listed = iana_global(a)
-        is_global = g and not a.is_multicast
-        is_private = listed and not g
+        if g is None or a.is_multicast:
+            return None            # registry says N/A (6to4), or not a possible unicast source: not compared
+        is_global = g
+        # "private" = registered as not globally reachable, except the RFC 6598 shared address space (100.64.0.0/10), which
+        # is neither private nor global (the "other addresses" of the statement; also the documented ipaddress meaning)
+        is_private = listed and not g and not (a.version == 4 and a in ipaddress.ip_network("100.64.0.0/10"))
     else:
         is_global, is_private = a.is_global, a.is_private
     return bool((bp and is_private) or (bg and is_global))
@@ -323,8 +340,9 @@ def bounded(tier, seed):
         if bool(err) != exp_lib:
             b.fail("block.matches_spec_with_ipaddress_classification", inp, f"expected refused={exp_lib}, client.error={err!r}")
         exp_iana = _spec_refused(a, mode, bp, bg, use_iana=True)
-        if bool(err) != exp_iana:
-            b.fail("block.matches_iana_registry", inp, f"expected refused={exp_iana} by the registry, client.error={err!r}")
+        if exp_iana is not None and bool(err) != exp_iana:
+            lag = "[cpython-gh-113171]" if _in_lagging_block(a) else ""
+            b.fail("block.matches_iana_registry" + lag, inp, f"expected refused={exp_iana} by the registry, client.error={err!r}")
     # refused before any protocol processing: the real handle_client
     sample = ["8.8.8.8", "10.0.0.1", "127.0.0.1", "::1", "::ffff:8.8.8.8", "fe80::1%eth0", "2a00:1450:4001:81a::200e", "::ffff:127.0.0.1", "192.168.1.1%x"]
     import ipaddress
